@@ -626,6 +626,15 @@ package jmespath
 //@ define allNum(v) = isArr(v) && (forall j int :: 0 <= j && j < arrLen(v) ==> isNum(arrAt(v, j)))
 //@ define allStr(v) = isArr(v) && (forall j int :: 0 <= j && j < arrLen(v) ==> isStr(arrAt(v, j)))
 
+//@ func toInterfaceSlice
+//@   props C05,C10
+//@   requires kindOf(arg) == 23 && (isArr(arg) || isGo(arg))
+//@   assigns \nothing
+//@   ensures [arrays-are-returned-as-they-are] isArr(arg) ==> same(result, arrOf(arg))
+//@   ensures [typed-slices-are-copied] !isArr(arg) ==> !isNil(result) && len(result) == goLen(arg)
+//@   loop 1 invariant 0 <= \k && \k <= len(converted) && len(converted) == goLen(arg) && !isArr(arg)
+//@   loop 1 decreases len(converted) - \k
+
 //@ func jpfAbs
 //@   props C05,C10
 //@   requires len(arguments) == 1 && isNum(arguments[0]) && specJSONVal(arguments[0])
@@ -984,6 +993,454 @@ package jmespath
 //@   assigns \nothing
 //@   ensures {C16} [json-result] err == nil ==> specJSONVal(result)
 //@   ensures {C17} [error-location] isSyntaxError(err) ==> err.Expression == expression && 0 <= err.Offset && err.Offset <= len(expression)
+// Hand-written variants for the functions that only matter on Go values (C18): truthiness by
+// reflection, struct field access, and the typed-slice twins of the projections.
+
+//@ func toInterfaceSlice #go
+//@   props C18
+//@   requires kindOf(arg) == 23 && specGoVal(arg)
+//@   assigns \nothing
+//@   ensures {C18} [arrays-are-returned-as-they-are] isArr(arg) ==> same(result, arrOf(arg))
+//@   ensures {C18} [elements-are-document-values] 0 <= len(result) && allGo(result, len(result))
+//@   loop 1 invariant {C18} 0 <= \k && \k <= len(converted) && len(converted) == goLen(arg) && !isArr(arg) && allGo(converted, len(converted))
+//@   loop 1 decreases len(converted) - \k
+
+//@ func isFalse #go
+//@   props C18
+//@   requires specGoVal(value)
+//@   assigns \nothing
+//@   decreases goDepth(value)
+
+//@ func (*treeInterpreter).fieldFromStruct #go
+//@   props C18
+//@   requires specGoVal(value)
+//@   assigns \nothing
+//@   ensures {C18} [not-a-syntax-error] !isSyntaxError(err)
+//@   ensures {C18} [go-result] err == nil && specGoVal(result)
+
+//@ func (*treeInterpreter).filterProjectionWithReflection #go
+//@   props C18
+//@   requires wfNode(node) && node.nodeType == ASTFilterProjection && kindOf(value) == 23 && !isArr(value) && specGoVal(value) && intr.fCall != nil && intr.fCall.functionTable == theFunctionTable()
+//@   assigns \nothing
+//@   decreases 4*nodeRank(node) + 2
+//@   ensures {C18} [not-a-syntax-error] !isSyntaxError(err)
+//@   ensures {C18} [go-result] err == nil ==> specGoVal(result)
+//@   loop 1 invariant {C18} 0 <= i && !isNil(collected) && allGo(collected, len(collected))
+//@   loop 1 decreases goLen(value) - i
+
+//@ func (*treeInterpreter).projectWithReflection #go
+//@   props C18
+//@   requires wfNode(node) && node.nodeType == ASTProjection && kindOf(value) == 23 && !isArr(value) && specGoVal(value) && intr.fCall != nil && intr.fCall.functionTable == theFunctionTable()
+//@   assigns \nothing
+//@   decreases 4*nodeRank(node) + 2
+//@   ensures {C18} [not-a-syntax-error] !isSyntaxError(err)
+//@   ensures {C18} [go-result] err == nil ==> specGoVal(result)
+//@   loop 1 invariant {C18} 0 <= i && !isNil(collected) && allGo(collected, len(collected))
+//@   loop 1 decreases goLen(value) - i
+
+//@ func (*treeInterpreter).flattenWithReflection #go
+//@   props C18
+//@   requires kindOf(value) == 23 && !isArr(value) && specGoVal(value)
+//@   assigns \nothing
+//@   ensures {C18} [not-a-syntax-error] !isSyntaxError(err)
+//@   ensures {C18} [go-result] err == nil ==> specGoVal(result)
+//@   loop 1 invariant {C18} 0 <= i && !isNil(flattened) && allGo(flattened, len(flattened))
+//@   loop 1 decreases goLen(value) - i
+//@   loop 2 invariant {C18} 0 <= j && 0 <= i && i < goLen(value) && !isNil(flattened) && allGo(flattened, len(flattened)) && specGoVal(element) && kindOf(element) == 23
+//@   loop 2 decreases (isArr(element) ? arrLen(element) : goLen(element)) - j
+
+//@ func (*treeInterpreter).sliceWithReflection #go
+//@   props C18
+//@   requires wfNode(node) && node.nodeType == ASTSlice && kindOf(value) == 23 && !isArr(value) && specGoVal(value)
+//@   assigns \nothing
+//@   ensures {C18} [not-a-syntax-error] !isSyntaxError(err)
+//@   ensures {C18} [go-result] err == nil ==> specGoVal(result)
+//@   loop 1 invariant {C18} 0 <= \k && \k <= 3 && len(sliceParams) == 3
+//@   loop 1 decreases 3 - \k
+//@   loop 2 invariant {C18} 0 <= i && !isNil(final) && allGo(final, len(final)) && len(sliceParams) == 3
+//@   loop 2 decreases goLen(value) - i
+
+
+// ---- BEGIN GO-VARIANT (generated by /verif/tools/mkgovariant.py; do not edit by hand) ----
+//@ define anyNumber(x) = same(x, x)
+//@ define allGo(s, n) = (forall j int :: 0 <= j && j < n ==> specGoVal(s[j]))
+//@ define argsGoOK(a) = (forall j int :: 0 <= j && j < len(a) ==> specGoArgOK(a[j]))
+
+//@ func slice #go
+//@   props C18
+//@   requires len(parts) == 3
+//@   ensures {C18} [non-nil-result] err == nil ==> !isNil(result)
+//@   ensures {C18} [elements-come-from-input] err == nil ==> allGo(slice, len(slice)) ==> allGo(result, len(result))
+//@   assigns \nothing
+//@   ensures {C18} [not-a-syntax-error] !isSyntaxError(err)
+//@   loop 1 invariant {C18} [json] allGo(slice, len(slice)) ==> allGo(result, len(result))
+//@   loop 2 invariant {C18} [json] allGo(slice, len(slice)) ==> allGo(result, len(result))
+//@   loop 1 invariant {C18} [walk] !isNil(result) && 0 <= i && stop <= len(slice) && step > 0 && specWalkUp(slice, i, stop, step, result) == specWalkUp(slice, start, stop, step, specEmptyList())
+//@   loop 1 decreases stop - i
+//@   loop 2 invariant {C18} [walk] !isNil(result) && i <= len(slice)-1 && -1 <= stop && step < 0 && specWalkDown(slice, i, stop, step, result) == specWalkDown(slice, start, stop, step, specEmptyList())
+//@   loop 2 decreases i - stop
+
+//@ func objsEqual #go
+//@   props C18
+//@   requires specGoVal(left) && specGoVal(right)
+//@   assigns \nothing
+
+//@ func isSliceType #go
+//@   props C18
+//@   ensures {C18} [slice-kind] result == (!isNil(v) && kindOf(v) == 23)
+//@   assigns \nothing
+
+//@ func toArrayNum #go
+//@   props C18
+//@   ensures {C18} [ok-iff-array-of-numbers] r1 == (isArr(data) && (forall j int :: 0 <= j && j < arrLen(data) ==> isNum(arrAt(data, j))))
+//@   ensures {C18} [copied] r1 ==> len(result) == arrLen(data) && !isNil(result) && (forall j int :: 0 <= j && j < arrLen(data) ==> same(result[j], numOf(arrAt(data, j))))
+//@   fresh
+//@   assigns \nothing
+//@   loop 1 invariant {C18} [prefix-numbers] 0 <= \k && \k <= arrLen(data) && (forall j int :: 0 <= j && j < \k ==> isNum(arrAt(data, j)) && same(result[j], numOf(arrAt(data, j))))
+//@   loop 1 decreases arrLen(data) - \k
+
+//@ func toArrayStr #go
+//@   props C18
+//@   ensures {C18} [ok-iff-array-of-strings] r1 == (isArr(data) && (forall j int :: 0 <= j && j < arrLen(data) ==> isStr(arrAt(data, j))))
+//@   ensures {C18} [copied] r1 ==> len(result) == arrLen(data) && !isNil(result) && (forall j int :: 0 <= j && j < arrLen(data) ==> result[j] == strOf(arrAt(data, j)))
+//@   fresh
+//@   assigns \nothing
+//@   loop 1 invariant {C18} [prefix-strings] 0 <= \k && \k <= arrLen(data) && (forall j int :: 0 <= j && j < \k ==> isStr(arrAt(data, j)) && result[j] == strOf(arrAt(data, j)))
+//@   loop 1 decreases arrLen(data) - \k
+
+//@ func (*functionCaller).CallFunction #go
+//@   props C18
+//@   ghost bound int
+//@   requires argsGoOK(arguments) && (forall j int :: 0 <= j && j < len(arguments) ==> (isExpRef(arguments[j]) ==> nodeRank(refOf(arguments[j])) < bound))
+//@   requires f.functionTable == theFunctionTable() && intr != nil && intr.fCall != nil && intr.fCall.functionTable == theFunctionTable()
+//@   assigns \nothing
+//@   ensures {C18} [not-a-syntax-error] !isSyntaxError(err)
+//@   decreases 4*bound + 2
+//@   call dyncall bound = bound
+//@   ensures {C18} [json-result] err == nil ==> specGoVal(result)
+//@   ensures {C18} [unknown-function] !mapHas(theFunctionTable(), name) ==> err != nil
+//@   ensures {C18} [ill-typed-or-wrong-arity] mapHas(theFunctionTable(), name) && !specArgsOK(theFunctionTable()[name].arguments, arguments) ==> err != nil
+
+//@ func (*treeInterpreter).Execute #go
+//@   props C18
+//@   requires wfArg(node) && specGoVal(value) && intr.fCall != nil && intr.fCall.functionTable == theFunctionTable()
+//@   assigns \nothing
+//@   ensures {C18} [not-a-syntax-error] !isSyntaxError(err)
+//@   decreases 4*nodeRank(node) + 3
+//@   call (*functionCaller).CallFunction bound = nodeRank(node)
+//@   ensures {C18} [json-result] err == nil ==> specGoResultOK(node, result)
+//@   loop 1 invariant {C18} [args] !isNil(resolvedArgs) && len(resolvedArgs) == \k && (forall j int :: 0 <= j && j < len(resolvedArgs) ==> specGoArgOK(resolvedArgs[j]) && (isExpRef(resolvedArgs[j]) ==> nodeRank(refOf(resolvedArgs[j])) < nodeRank(node)))
+//@   loop 1 decreases len(node.children) - \k
+//@   loop 2 invariant {C18} [filter] !isNil(collected) && allGo(collected, len(collected))
+//@   loop 2 decreases arrLen(left) - \k
+//@   loop 3 invariant {C18} [flatten] !isNil(flattened) && allGo(flattened, len(flattened))
+//@   loop 3 decreases arrLen(left) - \k
+//@   loop 5 invariant {C18} [hash] !isNil(collected) && 0 <= len(collected) && (forall k string :: mapHas(collected, k) ==> specGoVal(collected[k]))
+//@   loop 5 decreases len(node.children) - \k
+//@   loop 6 invariant {C18} [list] !isNil(collected) && allGo(collected, len(collected))
+//@   loop 6 decreases len(node.children) - \k
+//@   loop 7 invariant {C18} [pipe] specGoVal(result)
+//@   loop 7 decreases len(node.children) - \k
+//@   loop 8 invariant {C18} [projection] !isNil(collected) && allGo(collected, len(collected))
+//@   loop 8 decreases arrLen(left) - \k
+//@   loop 9 invariant {C18} [slice-params] 0 <= \k && \k <= 3 && len(sliceParams) == 3 && (forall j int :: 0 <= j && j < \k ==> same(sliceParams[j], specSlicePart(parts, j))) && (forall j int :: \k <= j && j < 3 ==> same(sliceParams[j], specSlicePart(parts, 5)))
+//@   loop 9 decreases 3 - \k
+//@   loop 10 invariant {C18} [values] !isNil(values) && allGo(values, len(values))
+//@   loop 10 decreases objSize(left) - \k
+//@   loop 11 invariant {C18} [value-projection] !isNil(collected) && allGo(collected, len(collected))
+//@   loop 11 decreases len(values) - \k
+//@   loop 4 invariant {C18} [typed-element-flattened] !isNil(reflectFlat) && allGo(reflectFlat, len(reflectFlat)) && 0 <= i
+//@   loop 4 decreases goLen(element) - i
+
+//@ func (*argSpec).typeCheck #go
+//@   props C18
+//@   requires specGoArgOK(arg)
+//@   assigns \nothing
+//@   ensures {C18} [not-a-syntax-error] !isSyntaxError(err)
+//@   ensures {C18} [accepts-exactly-the-declared-types] (err == nil) <==> specTypeOK(a.types, 0, arg)
+//@   loop 1 invariant {C18} [continuation] 0 <= \k && \k <= len(a.types) && specTypeOK(a.types, \k, arg) == specTypeOK(a.types, 0, arg)
+//@   loop 1 decreases len(a.types) - \k
+
+//@ func (*functionEntry).resolveArgs #go
+//@   props C18
+//@   requires argsGoOK(arguments)
+//@   assigns \nothing
+//@   ensures {C18} [not-a-syntax-error] !isSyntaxError(err)
+//@   ensures {C18} [arity-and-types] (err == nil) <==> specArgsOK(e.arguments, arguments)
+//@   ensures {C18} [arguments-returned] err == nil ==> same(result, arguments)
+//@   loop 1 invariant {C18} [continuation] 0 <= \k && \k <= len(e.arguments) && len(e.arguments) == len(arguments) && specArgsFrom(e.arguments, arguments, \k) == specArgsFrom(e.arguments, arguments, 0)
+//@   loop 1 decreases len(e.arguments) - \k
+//@   loop 2 invariant {C18} [continuation] 0 <= \k && \k <= len(arguments) && len(e.arguments) >= 1 && specArgsFrom(e.arguments, arguments, \k) == specArgsFrom(e.arguments, arguments, 0)
+//@   loop 2 decreases len(arguments) - \k
+
+//@ func jpfAbs #go
+//@   props C18
+//@   requires len(arguments) == 1 && isNum(arguments[0]) && specGoVal(arguments[0])
+//@   assigns \nothing
+//@   ensures {C18} [not-a-syntax-error] !isSyntaxError(err)
+//@   ensures {C18} err == nil ==> specGoVal(result)
+
+//@ func jpfCeil #go
+//@   props C18
+//@   requires len(arguments) == 1 && isNum(arguments[0]) && specGoVal(arguments[0])
+//@   assigns \nothing
+//@   ensures {C18} [not-a-syntax-error] !isSyntaxError(err)
+//@   ensures {C18} err == nil ==> specGoVal(result)
+
+//@ func jpfFloor #go
+//@   props C18
+//@   requires len(arguments) == 1 && isNum(arguments[0]) && specGoVal(arguments[0])
+//@   assigns \nothing
+//@   ensures {C18} [not-a-syntax-error] !isSyntaxError(err)
+//@   ensures {C18} err == nil ==> specGoVal(result)
+
+//@ func jpfLength #go
+//@   props C18
+//@   requires len(arguments) == 1 && specGoVal(arguments[0]) && (isStr(arguments[0]) || kindOf(arguments[0]) == 23 || isObj(arguments[0]))
+//@   assigns \nothing
+//@   ensures {C18} [not-a-syntax-error] !isSyntaxError(err)
+//@   ensures {C18} err == nil ==> specGoVal(result)
+
+//@ func jpfStartsWith #go
+//@   props C18
+//@   requires len(arguments) == 2 && isStr(arguments[0]) && isStr(arguments[1])
+//@   assigns \nothing
+//@   ensures {C18} [not-a-syntax-error] !isSyntaxError(err)
+//@   ensures {C18} err == nil ==> specGoVal(result)
+
+//@ func jpfEndsWith #go
+//@   props C18
+//@   requires len(arguments) == 2 && isStr(arguments[0]) && isStr(arguments[1])
+//@   assigns \nothing
+//@   ensures {C18} [not-a-syntax-error] !isSyntaxError(err)
+//@   ensures {C18} err == nil ==> specGoVal(result)
+
+//@ func jpfType #go
+//@   props C18
+//@   requires len(arguments) == 1 && specGoVal(arguments[0])
+//@   assigns \nothing
+//@   ensures {C18} [not-a-syntax-error] !isSyntaxError(err)
+//@   ensures {C18} err == nil ==> isStr(result)
+
+//@ func jpfToArray #go
+//@   props C18
+//@   requires len(arguments) == 1 && specGoVal(arguments[0])
+//@   assigns \nothing
+//@   ensures {C18} [not-a-syntax-error] !isSyntaxError(err)
+//@   ensures {C18} err == nil ==> specGoVal(result) && isArr(result)
+
+//@ func jpfToString #go
+//@   props C18
+//@   requires len(arguments) == 1 && specGoVal(arguments[0])
+//@   assigns \nothing
+//@   ensures {C18} [not-a-syntax-error] !isSyntaxError(err)
+//@   ensures {C18} err == nil ==> isStr(result)
+
+//@ func jpfToNumber #go
+//@   props C18
+//@   requires len(arguments) == 1 && specGoVal(arguments[0])
+//@   assigns \nothing
+//@   ensures {C18} [not-a-syntax-error] !isSyntaxError(err)
+//@   ensures {C18} [finite-or-null] err == nil ==> specGoVal(result) && (isNil(result) || isNum(result))
+
+//@ func jpfNotNull #go
+//@   props C18
+//@   requires specArgsOK(theFunctionTable()["not_null"].arguments, arguments) && argsGoOK(arguments)
+//@   assigns \nothing
+//@   ensures {C18} [not-a-syntax-error] !isSyntaxError(err)
+//@   ensures {C18} err == nil ==> specGoVal(result)
+//@   loop 1 invariant {C18} 0 <= \k && \k <= len(arguments) && specArgsFrom(theFunctionTable()["not_null"].arguments, arguments, \k)
+//@   loop 1 decreases len(arguments) - \k
+
+//@ func jpfAvg #go
+//@   props C18
+//@   requires len(arguments) == 1 && allNum(arguments[0]) && specGoVal(arguments[0])
+//@   assigns \nothing
+//@   ensures {C18} [not-a-syntax-error] !isSyntaxError(err)
+//@   assumes [moderate-magnitude] isNum(result) ==> anyNumber(numOf(result))
+//@   ensures {C18} [json] specGoVal(result)
+//@   loop 1 invariant {C18} 0 <= \k && \k <= arrLen(arguments[0])
+//@   loop 1 decreases arrLen(arguments[0]) - \k
+
+//@ func jpfSum #go
+//@   props C18
+//@   requires len(arguments) == 1 && allNum(arguments[0]) && specGoVal(arguments[0])
+//@   assigns \nothing
+//@   ensures {C18} [not-a-syntax-error] !isSyntaxError(err)
+//@   assumes [moderate-magnitude] isNum(result) ==> anyNumber(numOf(result))
+//@   ensures {C18} [json] err == nil ==> isNum(result) && specGoVal(result)
+//@   loop 1 invariant {C18} 0 <= \k && \k <= len(items)
+//@   loop 1 decreases len(items) - \k
+
+//@ func jpfContains #go
+//@   props C18
+//@   requires len(arguments) == 2 && specGoVal(arguments[0]) && specGoVal(arguments[1]) && (isStr(arguments[0]) || kindOf(arguments[0]) == 23)
+//@   assigns \nothing
+//@   ensures {C18} [not-a-syntax-error] !isSyntaxError(err)
+//@   ensures {C18} err == nil ==> isBool(result)
+//@   loop 1 invariant {C18} 0 <= \k && \k <= len(general)
+//@   loop 1 decreases len(general) - \k
+
+//@ func jpfKeys #go
+//@   props C18
+//@   requires len(arguments) == 1 && isObj(arguments[0]) && specGoVal(arguments[0])
+//@   assigns \nothing
+//@   ensures {C18} [not-a-syntax-error] !isSyntaxError(err)
+//@   ensures {C18} err == nil ==> specGoVal(result) && isArr(result)
+//@   loop 1 invariant {C18} 0 <= \k && \k <= objSize(arguments[0]) && !isNil(collected) && allGo(collected, len(collected))
+//@   loop 1 decreases objSize(arguments[0]) - \k
+
+//@ func jpfValues #go
+//@   props C18
+//@   requires len(arguments) == 1 && isObj(arguments[0]) && specGoVal(arguments[0])
+//@   assigns \nothing
+//@   ensures {C18} [not-a-syntax-error] !isSyntaxError(err)
+//@   ensures {C18} err == nil ==> specGoVal(result) && isArr(result)
+//@   loop 1 invariant {C18} 0 <= \k && \k <= objSize(arguments[0]) && !isNil(collected) && allGo(collected, len(collected))
+//@   loop 1 decreases objSize(arguments[0]) - \k
+
+//@ func jpfMerge #go
+//@   props C18
+//@   requires specArgsOK(theFunctionTable()["merge"].arguments, arguments) && argsGoOK(arguments)
+//@   assigns \nothing
+//@   ensures {C18} [not-a-syntax-error] !isSyntaxError(err)
+//@   ensures {C18} err == nil ==> specGoVal(result) && isObj(result)
+//@   loop 1 invariant {C18} [outer] 0 <= \k && \k <= len(arguments) && specArgsFrom(theFunctionTable()["merge"].arguments, arguments, \k) && !isNil(final) && 0 <= len(final) && (forall k string :: mapHas(final, k) ==> specGoVal(final[k]))
+//@   loop 1 decreases len(arguments) - \k
+//@   loop 2 invariant {C18} [inner] 0 <= \k && \k <= len(mapped) && !isNil(final) && 0 <= len(final) && (forall k string :: mapHas(final, k) ==> specGoVal(final[k]))
+//@   loop 2 decreases len(mapped) - \k
+
+//@ func jpfJoin #go
+//@   props C18
+//@   requires len(arguments) == 2 && isStr(arguments[0]) && allStr(arguments[1])
+//@   assigns \nothing
+//@   ensures {C18} [not-a-syntax-error] !isSyntaxError(err)
+//@   ensures {C18} err == nil ==> isStr(result)
+//@   loop 1 invariant {C18} 0 <= \k && \k <= arrLen(arguments[1])
+//@   loop 1 decreases arrLen(arguments[1]) - \k
+
+//@ func jpfReverse #go
+//@   props C18
+//@   requires len(arguments) == 1 && specGoVal(arguments[0]) && (isStr(arguments[0]) || kindOf(arguments[0]) == 23)
+//@   assigns \nothing
+//@   ensures {C18} [not-a-syntax-error] !isSyntaxError(err)
+//@   ensures {C18} err == nil ==> specGoVal(result)
+//@   loop 1 invariant {C18} [runes] 0 <= i && i <= len(r) && j == len(r) - 1 - i
+//@   loop 1 decreases len(r) - i
+//@   loop 2 invariant {C18} [array] 0 <= \k && \k <= len(items) && length == len(items) && (forall q int :: length - \k <= q && q < length ==> specGoVal(reversed[q])) && (forall q int :: 0 <= q && q < length - \k ==> isNil(reversed[q]))
+//@   loop 2 decreases len(items) - \k
+
+//@ func jpfMax #go
+//@   props C18
+//@   requires len(arguments) == 1 && specGoVal(arguments[0]) && (allNum(arguments[0]) || allStr(arguments[0]))
+//@   assigns \nothing
+//@   ensures {C18} [not-a-syntax-error] !isSyntaxError(err)
+//@   ensures {C18} err == nil ==> specGoVal(result)
+//@   loop 1 invariant {C18} 0 <= \k && \k <= len(items) - 1 && anyNumber(best)
+//@   loop 1 decreases len(items) - 1 - \k
+//@   loop 2 invariant {C18} 0 <= \k && \k <= len(items) - 1
+//@   loop 2 decreases len(items) - 1 - \k
+
+//@ func jpfMin #go
+//@   props C18
+//@   requires len(arguments) == 1 && specGoVal(arguments[0]) && (allNum(arguments[0]) || allStr(arguments[0]))
+//@   assigns \nothing
+//@   ensures {C18} [not-a-syntax-error] !isSyntaxError(err)
+//@   ensures {C18} err == nil ==> specGoVal(result)
+//@   loop 1 invariant {C18} 0 <= \k && \k <= len(items) - 1 && anyNumber(best)
+//@   loop 1 decreases len(items) - 1 - \k
+//@   loop 2 invariant {C18} 0 <= \k && \k <= len(items) - 1
+//@   loop 2 decreases len(items) - 1 - \k
+
+//@ func jpfSort #go
+//@   props C18
+//@   requires len(arguments) == 1 && specGoVal(arguments[0]) && (allNum(arguments[0]) || allStr(arguments[0]))
+//@   assigns \nothing
+//@   ensures {C18} [not-a-syntax-error] !isSyntaxError(err)
+//@   ensures {C18} err == nil ==> specGoVal(result) && isArr(result)
+//@   loop 1 invariant {C18} 0 <= \k && \k <= len(d) && (forall q int :: 0 <= q && q < len(d) ==> anyNumber(d[q])) && (forall q int :: 0 <= q && q < \k ==> specGoVal(final[q])) && (forall q int :: \k <= q && q < len(d) ==> isNil(final[q]))
+//@   loop 1 decreases len(d) - \k
+//@   loop 2 invariant {C18} 0 <= \k && \k <= len(d) && (forall q int :: 0 <= q && q < \k ==> specGoVal(final[q])) && (forall q int :: \k <= q && q < len(d) ==> isNil(final[q]))
+//@   loop 2 decreases len(d) - \k
+
+//@ func (*byExprFloat).Less #go
+//@   props C18
+//@   decreases 4*nodeRank(a.node) + 4
+//@   requires 0 <= i && i < len(a.items) && 0 <= j && j < len(a.items) && keyEvalOK(a.intr, a.node) && allGo(a.items, len(a.items))
+//@   assigns byExprFloat.hasError
+//@   ensures {C18} [flag-only-set] old(a.hasError) ==> a.hasError
+
+//@ func (*byExprString).Less #go
+//@   props C18
+//@   decreases 4*nodeRank(a.node) + 4
+//@   requires 0 <= i && i < len(a.items) && 0 <= j && j < len(a.items) && keyEvalOK(a.intr, a.node) && allGo(a.items, len(a.items))
+//@   assigns byExprString.hasError
+//@   ensures {C18} [flag-only-set] old(a.hasError) ==> a.hasError
+
+//@ func jpfMap #go
+//@   props C18
+//@   ghost bound int
+//@   requires nodeRank(refOf(arguments[1])) < bound
+//@   decreases 4*bound + 1
+//@   requires len(arguments) == 3 && intrOK(arguments[0]) && isExpRef(arguments[1]) && wfNode(refOf(arguments[1])) && kindOf(arguments[2]) == 23 && specGoVal(arguments[2])
+//@   assigns \nothing
+//@   ensures {C18} [not-a-syntax-error] !isSyntaxError(err)
+//@   ensures {C18} err == nil ==> specGoVal(result) && isArr(result)
+//@   loop 1 invariant {C18} 0 <= \k && \k <= len(arr) && !isNil(mapped) && allGo(mapped, len(mapped))
+//@   loop 1 decreases len(arr) - \k
+
+//@ func jpfMaxBy #go
+//@   props C18
+//@   ghost bound int
+//@   requires nodeRank(refOf(arguments[2])) < bound
+//@   decreases 4*bound + 1
+//@   requires len(arguments) == 3 && intrOK(arguments[0]) && kindOf(arguments[1]) == 23 && specGoVal(arguments[1]) && isExpRef(arguments[2]) && wfNode(refOf(arguments[2]))
+//@   assigns \nothing
+//@   ensures {C18} [not-a-syntax-error] !isSyntaxError(err)
+//@   ensures {C18} err == nil ==> specGoVal(result)
+//@   loop 1 invariant {C18} 0 <= \k && \k <= len(arr) - 1 && specGoVal(bestItem)
+//@   loop 1 decreases len(arr) - 1 - \k
+//@   loop 2 invariant {C18} 0 <= \k && \k <= len(arr) - 1 && specGoVal(bestItem)
+//@   loop 2 decreases len(arr) - 1 - \k
+
+//@ func jpfMinBy #go
+//@   props C18
+//@   ghost bound int
+//@   requires nodeRank(refOf(arguments[2])) < bound
+//@   decreases 4*bound + 1
+//@   requires len(arguments) == 3 && intrOK(arguments[0]) && kindOf(arguments[1]) == 23 && specGoVal(arguments[1]) && isExpRef(arguments[2]) && wfNode(refOf(arguments[2]))
+//@   assigns \nothing
+//@   ensures {C18} [not-a-syntax-error] !isSyntaxError(err)
+//@   ensures {C18} err == nil ==> specGoVal(result)
+//@   loop 1 invariant {C18} 0 <= \k && \k <= len(arr) - 1 && specGoVal(bestItem)
+//@   loop 1 decreases len(arr) - 1 - \k
+//@   loop 2 invariant {C18} 0 <= \k && \k <= len(arr) - 1 && specGoVal(bestItem)
+//@   loop 2 decreases len(arr) - 1 - \k
+
+//@ func jpfSortBy #go
+//@   props C18
+//@   ghost bound int
+//@   requires nodeRank(refOf(arguments[2])) < bound
+//@   decreases 4*bound + 1
+//@   requires len(arguments) == 3 && intrOK(arguments[0]) && kindOf(arguments[1]) == 23 && specGoVal(arguments[1]) && isExpRef(arguments[2]) && wfNode(refOf(arguments[2]))
+//@   assigns \nothing
+//@   ensures {C18} [not-a-syntax-error] !isSyntaxError(err)
+//@   ensures {C18} err == nil ==> specGoVal(result) && isArr(result)
+
+//@ func (*JMESPath).Search #go
+//@   props C18
+//@   requires wfNode(jp.ast) && jp.intr != nil && jp.intr.fCall != nil && jp.intr.fCall.functionTable == theFunctionTable() && specGoVal(data)
+//@   assigns \nothing
+//@   ensures {C18} [json-result] err == nil ==> specGoVal(result)
+
+//@ func Search #go
+//@   props C18
+//@   requires specGoVal(data)
+//@   assigns \nothing
+//@   ensures {C18} [json-result] err == nil ==> specGoVal(result)
+//@   ensures {C18} [error-location] isSyntaxError(err) ==> err.Expression == expression && 0 <= err.Offset && err.Offset <= len(expression)
+
+// ---- END GO-VARIANT ----
 
 // ---------------------------------------------------------------------------
 // Lemmas over the spec functions (each proved once, without using any lemma)
